@@ -5,6 +5,7 @@ evaluated by vm_compute and compared exactly (booleans, indices, (int, frac) bit
 (M) the property on exact rationals: order of exact values, |parsed - decimal value| <= 2^-52, printed string = exact value rounded
 to the digits shown, from_string(to_string(p)) = p, a real string never yields an imaginary phase."""
 from fractions import Fraction as Fr
+import math
 import numpy as np
 import astropy.units as u
 from pulsarbat.pulsar.phase import Phase
@@ -159,7 +160,7 @@ def run(ctx):
     for c in range(NRED):
         n = rng.choice([1, 2, 3, 4, 5, 7])
         bc = rand_count(rng)
-        mode = rng.choice(['cluster', 'neartie_top', 'neartie_bottom', 'random', 'neartie_top', 'neartie_bottom', 'straddle', 'straddle'])
+        mode = rng.choice(['cluster', 'neartie_top', 'neartie_bottom', 'random', 'neartie_top', 'neartie_bottom', 'straddle', 'straddle', 'neartie_fine', 'neartie_fine'])
         ctx.count('red_mode:' + mode)
         cs, fs = [], []
         if mode in ('neartie_top', 'neartie_bottom') and n >= 2:
@@ -179,6 +180,17 @@ def run(ctx):
                 cs.append(float(-sgn * rng.choice([0, 1, 1000, big // 3, big]))); fs.append(rand_frac(rng))
             if rng.random() < 0.5:            # far element first
                 cs = cs[ties:] + cs[:ties]; fs = fs[ties:] + fs[:ties]
+        elif mode == 'neartie_fine' and n >= 2:
+            # phases of the same (or a neighbouring) count whose fractions are NEIGHBOURING doubles: gaps of 2^-54 and finer, far below the
+            # 2^-53 accuracy of a Phase subtraction - the order of the exact two-part values is still defined and must be respected
+            big = rng.choice([0, 1, 1000, 2 ** 30, 2 ** 40 + 3, 2 ** 40 + 3, 2 ** 51 - 5, 2 ** 51 - 5]) * rng.choice([1, -1])
+            f0 = rng.choice([0.4999999, -0.4999999, 0.4999999, -0.4999999, 0.3, -0.1, 0.01, rand_frac(rng) * 0.9])
+            same = rng.random() < 0.7
+            while len(cs) < n:
+                f = f0
+                for _ in range(rng.randint(0, 3)):
+                    f = math.nextafter(f, rng.choice([math.inf, -math.inf]))
+                cs.append(float(big + (0 if same else rng.choice([0, 0, 0, 1, -1])))); fs.append(max(-0.5, min(0.5, f)))
         elif mode == 'straddle' and n >= 2:
             # near-ties written with DIFFERENT counts: (k, 1/2 - a) and (k+1, -1/2 + b) with a, b tiny multiples of 2^-53
             # (their single-double cycle values tie, the two-part values do not), at counts where that matters
@@ -209,6 +221,8 @@ def run(ctx):
             arr = Phase(np.array(cs), np.array(fs))
             axis = rng.choice([None, 0, -1])
         which = rng.choice(['argmin', 'argmax', 'argsort', 'min', 'max', 'ptp', 'sort', 'np.min', 'np.max', 'np.argmin', 'np.argmax'])
+        if mode == 'neartie_fine' and rng.random() < 0.6:
+            which = rng.choice(['argsort', 'sort'])
         inp = dict(op=which, arr=repr(arr), axis=axis, shape=list(arr.shape))
         ctx.seen(inp); ctx.count('red:' + which)
         # lanes the operation reduces over
@@ -236,7 +250,7 @@ def run(ctx):
         for li, lane in enumerate(lanes):
             ll = '[' + '; '.join(ph_lit(lane[k]) for k in range(len(lane))) + ']'
             ex = [exact(lane[k])[0] for k in range(len(lane))]
-            gaps_ok = all(ex[i] == ex[j] or abs(ex[i] - ex[j]) >= Fr(1, 2 ** 53) for i in range(len(ex)) for j in range(i))
+            gaps_ok = True          # the order of the exact two-part values is demanded however close they are (see D26)
             try:
                 if base in ('argmin', 'argmax'):
                     got = int(rr.reshape(-1)[li]) if rr.ndim else int(rr)
